@@ -59,19 +59,21 @@ def _run_ops(a, ops, width):
 
 def _nets(s):
     import ipaddress
+    from netconan.ip_anonymization import IpAnonymizer
 
     if s == "-":
         return []
     if s == "D":
         return None
-    if s == "P":
-        from netconan.ip_anonymization import IpAnonymizer
-
-        return list(IpAnonymizer.RFC_1918_NETWORKS)
     res = []
     for item in s.split(";"):
-        a, l = item.split("/")
-        res.append("%s/%s" % (ipaddress.IPv4Address(int(a)), l))
+        if item == "P":
+            res += list(IpAnonymizer.RFC_1918_NETWORKS)
+        elif item == "D":
+            res += list(IpAnonymizer.DEFAULT_PRESERVED_PREFIXES)
+        else:
+            a, l = item.split("/")
+            res.append("%s/%s" % (ipaddress.IPv4Address(int(a)), l))
     return res
 
 
